@@ -266,7 +266,7 @@ func lockErrToProtoBuffErr(e error) *pb.Error {
 		errCode = pb.ErrorCode_LockDoesNotExist
 	case lock.ErrLockNotLocked:
 		errCode = pb.ErrorCode_NotLocked
-	case timermap.ErrTimerDoesNotExist:
+	case timermap.ErrTimerDoesNotExist, server.ErrLockDoesNotExistOrInvalidKey:
 		errCode = pb.ErrorCode_LockDoesNotExistOrInvalidKey
 	case lock.ErrInvalidLockSize:
 		errCode = pb.ErrorCode_InvalidLockSize
